@@ -19,7 +19,7 @@ for i in range(1, 21):
     head, rest = src.split("   Already used (one line each):\n", 1)
     tail = rest[rest.index("   The breakage needs something specific"):]
     out = head + "   Already used (one line each):\n" + "\n".join(used) + "\n" + tail
-    old = re.findall(r"call them (\w), (\w) and (\w)", out)[0]
+    old = re.findall(r"call them (\w+), (\w+) and (\w+)", out)[0]
     out = out.replace(f"call them {old[0]}, {old[1]} and {old[2]}", f"call them {l1}, {l2} and {l3}")
     out = out.replace(f"X in {{{old[0]}, {old[1]}, {old[2]}}}", f"X in {{{l1}, {l2}, {l3}}}")
     out = out.replace(f"for {old[0]}, {old[1]} and {old[2]}:", f"for {l1}, {l2} and {l3}:")
